@@ -32,6 +32,12 @@ Definition c13_read_full_current : bool := true.
     (true, fix: commit); false = pinned: ".." segments of the name could replace the root. *)
 Definition c14_root_checked_current : bool := true.
 
+(** baseorbitdb Open with LocalOnly and a Directory option also looks for the database in the
+    instance's own directory, where Create records it whatever the option (true, fix:
+    commit caa92c5); false = before: a local-only Open with the Directory
+    option the database was created with answered "database doesn't exist". *)
+Definition c14_open_falls_back_current : bool := true.
+
 (** base_store.go Sync skips heads that are nil / typed-nil or lack identity, signatures,
     clock or hash before dereferencing them, and starts replication for the verified heads
     only (true, fix: commit); false = pinned: nil dereference on {"heads":[null]}, {"heads":[{}]}. *)
@@ -43,6 +49,9 @@ Definition frame_unsigned_cmp_current : bool := true.
 (** C15: base_store.go Load treats a non-positive limit as unlimited / never hands Join a size
     larger than the joined log (true, fix: commit c8a932e); false = pinned. *)
 Definition c15_normalises_current : bool := true.
+(* (since fix e47fbc6 Load joins a head's whole fetched log and trims afterwards when the log is
+   longer than the limit: the same results as the clamp whenever the fetcher contract [fetch_ok]
+   holds, and no slice out of bounds on logs that lack ancestors) *)
 Definition c15_clamps_current : bool := true.
 
 (** C09: a store's write listener ignores EventWrite of other addresses / the replicator has a
@@ -109,3 +118,10 @@ Definition c18_destroy_own_files_current : bool := true.
     (true, fix: commit 779a73f); false = before: the map was never reset, so keys of entries that
     left the log (Load with a limit on a store holding more) stayed visible. *)
 Definition index_rebuild_resets_current : bool := true.
+
+(** cacheleveldown Load hands out the wrapper it registers also when it opens the datastore (true,
+    fix: commit 12b0289); false = before: the first Load of a database
+    returned the bare leveldb datastore, whose Close left the (now closed) cache registered - a
+    database opened with a Directory option other than the instance's directory could be closed
+    and reopened only once ("leveldb: closed"). *)
+Definition c18_load_registered_current : bool := true.
